@@ -21,6 +21,7 @@ structure St where
   bcount : Nat := 0
   reported : Bool := false
   incoherent : Bool := false
+  globalsReported : Bool := false
 
 def field (ws : List String) (name : String) : Option String :=
   (ws.find? (·.startsWith (name ++ "="))).map (fun w => (w.drop (name.length + 1)).toString)
@@ -61,11 +62,11 @@ def step (st : St) (pre post : List String) : St × Verdict :=
       else ({ st with plumbing := some p }, .diff s!"probe: model {showMarks want} impl {showMarks obs}")
     | none, _ => (st, .diff s!"probe: the real simulate path matches neither the as-is nor the fixed plumbing: {post}")
     | _, none => (st, .bad "probe marks")
-  | ["hist", _, kind, _, _] => ({ st with kind := kind, ablk := [], bcount := 0, reported := false, incoherent := false }, .ok)
+  | ["hist", _, kind, _, _] => ({ st with kind := kind, ablk := [], bcount := 0, reported := false, incoherent := false, globalsReported := false }, .ok)
   | ["crash", _, role] =>
     if role = "B" then ({ st with reported := true }, .propfail (sigOf st.kind) s!"twin B crashed or hung: {" ".intercalate (post.take 30)}")
     else (st, .diff s!"twin A crashed: {" ".intercalate (post.take 30)}")
-  | ["A", "blk", h] => ({ st with ablk := (h, post) :: st.ablk }, if post.length = 5 then .ok else .bad "blk arity")
+  | ["A", "blk", h] => ({ st with ablk := (h, post) :: st.ablk }, if post.length = 6 then .ok else .bad "blk arity")
   | ["A", "dtx", _, _, _] =>
     match st.plumbing, field post "code", marksOf post with
     | some p, some code, some obs =>
@@ -96,6 +97,10 @@ def step (st : St) (pre post : List String) : St × Verdict :=
       match modelV with
       | .ok =>
         if changed then (st, .propfail (sigOf kind) detail)
+        else if (field post "gpre") ≠ (field post "gpost") then
+          -- codec.UpgradeHeight / OldUpgradeHeight / UpgradeFeatureMap gate consensus rules: part of `G`, and read by block execution
+          if st.globalsReported then (st, .ok)
+          else ({ st with globalsReported := true }, .propfail "simulate-changes-upgrade-globals" s!"{" ".intercalate (pre.drop 2)}: upgrade globals {(field post "gpre").getD "?"} -> {(field post "gpost").getD "?"} (store unchanged, result code {code})")
         else
           -- node-local side state: the REAL ApplicationCache must stay coherent with the working store
           match field post "cache" >>= parseItems, field post "store" >>= parseItems with
@@ -112,9 +117,10 @@ def step (st : St) (pre post : List String) : St × Verdict :=
     | none => (st', .bad s!"no A block {h}")
     | some (_, a) =>
       if a = post then (st', .ok)
-      else if st.reported then (st', .ok)   -- the divergence of this history is already reported
+      else if st.reported then (st', .ok)
+      else if a.take 5 = post.take 5 then (st', .ok)   -- only the upgrade globals differ: reported on the call that changed them   -- the divergence of this history is already reported
       else
-        let what := if a.take 1 ≠ post.take 1 then "app hash" else if (a.drop 1).take 1 ≠ (post.drop 1).take 1 then "DeliverTx codes" else "state"
+        let what := if a.take 1 ≠ post.take 1 then "app hash" else if (a.drop 1).take 1 ≠ (post.drop 1).take 1 then "DeliverTx codes" else if a.drop 5 ≠ post.drop 5 then "upgrade globals (codec.UpgradeHeight/OldUpgradeHeight/UpgradeFeatureMap)" else "state"
         ({ st' with reported := true }, .propfail (sigOf st.kind) s!"block {h}: {what} differs from the twin without off-chain activity: A={" ".intercalate (a.take 2)} B={" ".intercalate (post.take 2)}")
   | ["end", _] =>
     if st.bcount = st.ablk.length || st.reported then (st, .ok)
